@@ -42,7 +42,9 @@ func newChainExec(s Sink) (*chainExec, error) {
 func (x *chainExec) resignBlock(b *types.Block) {
 	n := x.f.node
 	miner := x.f.cl.W.Deputies[0]
-	if parent := n.BC.GetBlockByHash(b.ParentHash()); parent != nil {
+	// (the schedule function the fixture asks refuses instants before 1e10 ms by panicking: do not
+	// call it from the harness with such a time; the node will get there on its own path)
+	if parent := n.BC.GetBlockByHash(b.ParentHash()); parent != nil && int64(b.Time())*1000 >= 1e10 {
 		if k, err := n.InTurn(parent.Header, b.Time()); err == nil {
 			miner = k
 		}
@@ -56,7 +58,14 @@ func (x *chainExec) resignBlock(b *types.Block) {
 	}
 }
 
-func (x *chainExec) resignTx(tx *types.Transaction) *types.Transaction {
+func (x *chainExec) resignTx(tx *types.Transaction) (out *types.Transaction) {
+	// the signing helpers of the repository are wallet code, not a network path: if they cannot
+	// cope with the mutant it simply stays as it is
+	defer func() {
+		if r := recover(); r != nil {
+			out = tx
+		}
+	}()
 	k, ok := x.f.cl.W.KeyByAddr(tx.From())
 	if !ok {
 		return tx
@@ -84,6 +93,10 @@ func errClass(e error) string {
 func (x *chainExec) exec(cs Case) {
 	x.window = append(x.window, cs)
 	wit := map[string]interface{}{"window": append([]Case(nil), x.window...)}
+	if cs.Lazy != "" && cs.Obj == nil {
+		cs = x.materialiseLazy(cs)
+		x.window[len(x.window)-1] = cs
+	}
 	o := cs.Obj
 	n := x.f.node
 	fx.SetSelf(n.Self)
@@ -156,7 +169,7 @@ func (x *chainExec) exec(cs Case) {
 		x.s.Stat("d_confirm_packets_inserted", 1)
 		x.s.Stat("d_confirm_sigs_inserted", int64(len(bcf.Pack)))
 	}
-	checkAlloc(x.s, "d", a, int64(len(raw)), 0, wit)
+	checkAlloc(x.s, "d", a, 1, int64(len(raw)), 0, wit)
 	fp := "d/" + cs.Kind
 	if !decoded {
 		fp += "/undecodable"
@@ -191,3 +204,36 @@ func (x *chainExec) groupEnd() bool {
 }
 
 func (x *chainExec) close() {}
+
+// materialiseLazy builds the fixed-list cases that need the fixture's objects.
+func (x *chainExec) materialiseLazy(cs Case) Case {
+	switch cs.Lazy {
+	case "next-block-time-zero-resigned", "next-block-time-1970-resigned":
+		t := treeOf(x.f.next.ShallowCopy())
+		t.L[1] = nL() // no transactions: their expiration would be checked against the block time first
+		if cs.Lazy == "next-block-time-zero-resigned" {
+			t.L[0].L[8] = &Node{}
+		} else {
+			t.L[0].L[8] = nU(9999999)
+		}
+		cs.Obj = &Obj{What: "block", Payload: &Payload{Tree: t}, Resign: true, Base: len(x.f.blocks)}
+	case "modify-signers-data-null-resigned":
+		// a funded user's plain transfer turned into a modify-signers transaction whose data is the JSON document null
+		for i := len(x.f.txs) - len(x.f.spare); i < len(x.f.txs); i++ {
+			tx := x.f.txs[i]
+			if _, ok := x.f.cl.W.KeyByAddr(tx.From()); ok && tx.Type() == 0 && tx.To() != nil {
+				t := treeOf(tx)
+				t.L[0] = nU(9)
+				t.L[8] = nU(2000000)
+				t.L[10] = &Node{}
+				t.L[11] = nB([]byte("null"))
+				cs.Obj = &Obj{What: "tx", Payload: &Payload{Tree: t}, Resign: true, Base: i}
+				break
+			}
+		}
+		if cs.Obj == nil {
+			cs.Obj = &Obj{What: "tx", Payload: &Payload{Tree: nL()}}
+		}
+	}
+	return cs
+}
